@@ -209,6 +209,11 @@ AlphaExec ==
    EXEC("none", 0), EVAL, DOT(0), T0("sub"), DEFN("f"), CMD("f"), TRAP(-2), EXIT(4),
    FOR(2), T0("seq"), T0("and"), T0("or"), T0("not"), T0("if")}
 
+\* exec with a utility from inside every frame kind (few tokens, larger bound; real OS)
+AlphaExecNest ==
+  {MK0, PR, EXEC("found", 0), EXEC("found", 3), EXEC("missing", 0), DEFN("f"), CMD("f"), EVAL, DOT(0),
+   T0("sub"), T0("seq"), T0("if")}
+
 \* few tokens, larger bound: deep nesting of the frame kinds
 AlphaNest ==
   {MK0, PR, EVAL, DOT(0), DEFN("f"), CMD("f"), RET(5), BRK(1), BRK(2), FOR(2), T0("seq"), T0("sub")}
@@ -224,7 +229,7 @@ AlphaSetE ==
 
 \* everything at once (laws on tiny programs)
 AlphaAll == AlphaEvalLoop \cup AlphaDotRet \cup AlphaExit \cup AlphaErrors \cup AlphaErrexit \cup AlphaExec
-            \cup AlphaNest \cup AlphaPos \cup AlphaSetE
+            \cup AlphaNest \cup AlphaPos \cup AlphaSetE \cup AlphaExecNest
 
 OptsPlain == <<Opt(0, 0)>>
 OptsFlow == <<Opt(0, 0), Opt(0, 1)>>
